@@ -9,57 +9,56 @@
 
   * `custom_names_wellformed`               (def : Prop) the full statement for a pattern `re`:
                                             every accepted string is CUSTOM_[A-Z0-9_]+
-  * `custom_rc_name_wellformed_refuted`     the full statement is FALSE for the class pattern ...
-  * `custom_rc_name_wellformed_witness`,
-    `custom_trait_name_wellformed_witness`  ... "CUSTOM_X\n" / "CUSTOM_T\n" are accepted (DESIGN §9-J, known finding)
-  * `custom_rc_name_wellformed_partial`,
-    `custom_trait_name_wellformed_partial`  PARTIAL: true for every name without a newline character
-  * `created_class_name`, `created_trait_name`  what a schema-valid POST /resource_classes body or PUT /traits name
-                                            is: at most 255 code points, custom form up to one trailing newline
+  * `custom_rc_name_wellformed`,
+    `custom_trait_name_wellformed`          FULL: it holds for the two generated patterns (all strings)
+  * `dollar_pattern_not_wellformed`         it is FALSE for `^CUSTOM_[A-Z0-9_]+$` (the pattern before the `fix:`
+                                            commit recorded in KNOWN_FINDINGS.json, DESIGN §9-J): "CUSTOM_X\n" matches
+  * `trailing_newline_rejected`             the former witnesses are rejected by the patterns in the tree
+  * `created_class_name`, `put_class_name`,
+    `created_trait_name`                    what a schema-valid POST /resource_classes body, PUT /resource_classes/{name}
+                                            name or PUT /traits/{name} name is: at most 255 code points, custom form
 -/
 import Placement.Props.C15
 
 namespace Placement.Props.C19
 open Placement Placement.Regex Placement.Gen.Schemas
 
-/-- full statement (false for the patterns in the tree, see `custom_rc_name_wellformed_refuted`) -/
+/-- full statement -/
 def custom_names_wellformed (re : Re) : Prop := C15.custom_name_wellformed re
 
-theorem custom_rc_name_wellformed_witness :
-    Regex.matches common.CUSTOM_RC_PATTERN "CUSTOM_X\n".toList = true ∧ C15.isCustomName "CUSTOM_X\n".toList = false :=
-  C15.custom_rc_name_wellformed_witness
+theorem custom_rc_name_wellformed : custom_names_wellformed common.CUSTOM_RC_PATTERN :=
+  C15.custom_rc_name_wellformed
 
-theorem custom_trait_name_wellformed_witness :
-    Regex.matches common.CUSTOM_TRAIT_PATTERN "CUSTOM_T\n".toList = true ∧
-      C15.isCustomName "CUSTOM_T\n".toList = false :=
-  C15.custom_trait_name_wellformed_witness
+theorem custom_trait_name_wellformed : custom_names_wellformed common.CUSTOM_TRAIT_PATTERN :=
+  C15.custom_trait_name_wellformed
 
-theorem custom_rc_name_wellformed_refuted : ¬ custom_names_wellformed common.CUSTOM_RC_PATTERN :=
-  C15.custom_rc_name_wellformed_refuted
+theorem dollar_pattern_not_wellformed : ¬ custom_names_wellformed C15.dollarPattern :=
+  C15.dollarPattern_not_wellformed
 
-/-- names without a newline: CUSTOM_ followed by one or more of A-Z, 0-9, _ -/
-theorem custom_rc_name_wellformed_partial {s : List Char} (hnl : '\n' ∉ s)
-    (h : Regex.matches common.CUSTOM_RC_PATTERN s = true) : C15.isCustomName s = true :=
-  C15.custom_rc_name_wellformed_partial hnl h
+theorem trailing_newline_rejected :
+    Regex.matches common.CUSTOM_RC_PATTERN "CUSTOM_X\n".toList = false ∧
+    Regex.matches common.CUSTOM_TRAIT_PATTERN "CUSTOM_T\n".toList = false :=
+  C15.custom_rc_rejects_trailing_newline
 
-theorem custom_trait_name_wellformed_partial {s : List Char} (hnl : '\n' ∉ s)
-    (h : Regex.matches common.CUSTOM_TRAIT_PATTERN s = true) : C15.isCustomName s = true :=
-  C15.custom_trait_name_wellformed_partial hnl h
-
-/-- the name `POST /resource_classes` creates: at most 255 code points, custom form up to a trailing newline -/
+/-- the name `POST /resource_classes` creates: at most 255 code points, custom form -/
 theorem created_class_name (j : Json) (h : validate resource_class.POST_RC_SCHEMA_V1_2 j = true) :
     ∃ kvs name, j = .obj kvs ∧ lookup "name" kvs = some (.str name) ∧ name.toList.length ≤ 255 ∧
-      (C15.isCustomName name.toList = true ∨ ∃ t, name.toList = t ++ ['\n'] ∧ C15.isCustomName t = true) :=
+      C15.isCustomName name.toList = true :=
   C15.created_class_name j h
+
+/-- the name `PUT /resource_classes/{name}` (>= 1.7) creates -/
+theorem put_class_name (j : Json) (h : validate resource_class.PUT_RC_SCHEMA_V1_2 j = true) :
+    ∃ kvs name, j = .obj kvs ∧ lookup "name" kvs = some (.str name) ∧ name.toList.length ≤ 255 ∧
+      C15.isCustomName name.toList = true :=
+  C15.put_class_name j h
 
 /-- the name `PUT /traits/{name}` creates -/
 theorem created_trait_name (j : Json) (h : validate trait.CUSTOM_TRAIT j = true) :
-    ∃ name, j = .str name ∧ name.toList.length ≤ 255 ∧
-      (C15.isCustomName name.toList = true ∨ ∃ t, name.toList = t ++ ['\n'] ∧ C15.isCustomName t = true) :=
+    ∃ name, j = .str name ∧ name.toList.length ≤ 255 ∧ C15.isCustomName name.toList = true :=
   C15.created_trait_name j h
 
-/-- the hypotheses are satisfiable -/
-example : C15.isCustomName "CUSTOM_FOO_1".toList = true :=
-  custom_rc_name_wellformed_partial (by decide) (by decide)
+/-- the patterns accept something (non-vacuity) -/
+example : Regex.matches common.CUSTOM_RC_PATTERN "CUSTOM_FOO_1".toList = true ∧
+    C15.isCustomName "CUSTOM_FOO_1".toList = true := by decide
 
 end Placement.Props.C19
